@@ -5,6 +5,7 @@
    (2) WHEN: the projection must never run while an application commit is still uncaptured. (2) is the
    transaction-id bookkeeping, proved here for every interleaving that contains no application commit inside
    the window after an empty own transaction — and refuted inside that window (known finding F8). *)
+From Coq Require Import List NArith Lia. Import ListNotations.
 From LS Require Import Base.Bytes Base.Res Header.Model Merge.Model Merge.Version Merge.Proofs
   Strategy.Model Shadow.Model Instance.Model Instance.SyncLoop Instance.Ids Instance.IdsProofs Instance.StepShapes Instance.ReceiveOnly.
 Open Scope N_scope.
@@ -19,6 +20,21 @@ Theorem C03_partial : forall l s,
   forall a, In a (apps s) -> a <= (if lc then last s else cap s).
 Proof. exact (fun l s => captured_before_projection true l s eq_refl). Qed.
 Print Assumptions C03_partial.
+
+(* non-vacuity of C03_partial: a reachable idle state in shadow mode whose application commit was captured *)
+Example C03_example :
+  exists s, reach (step_nw true) (init 3) s /\ at_ s = Top /\ apps s = [4] /\ 
+            (forall a, In a (apps s) -> a <= cap s).
+Proof.
+  eexists. split.
+  - eapply r_step. eapply r_step. eapply r_step. eapply r_step. eapply r_step. apply r_init.
+    + apply nw_app; cbn; [discriminate|tauto].
+    + apply nw_other; [apply s_check_send; [reflexivity|cbn; lia]|reflexivity].
+    + apply nw_other; [apply (s_send_txn true _ true); reflexivity|reflexivity].
+    + apply nw_other; [eapply s_send_info; reflexivity|reflexivity].
+    + apply nw_other; [eapply s_store_ok; reflexivity|reflexivity].
+  - cbn. repeat split; try reflexivity. intros a [<-|[]]. lia.
+Qed.
 
 (* the invariant behind it, for both modes: what counts as synced has been captured and published *)
 Theorem C03_inv : forall shadow l s, reach (step_nw shadow) (init l) s -> inv shadow s.
